@@ -303,6 +303,7 @@ pub fn run(ctx: &Ctx, report: &mut Report) {
         || workload(schedules),
         oracle,
     );
+    crate::sched::fold_stress("C28", report);
 }
 
 pub fn replay(_check: &str, case: &serde_json::Value) -> Verdict {
